@@ -78,9 +78,12 @@ def shrink(mode, seq, vs_spec, work, log, budget=120):
 def check_property(prop, cfg, tier, seed, replay=None):
     t0 = time.time()
     log = log_factory(prop)
-    work = os.path.join(core.VERIF, "work", prop)
+    # one work directory per invocation: concurrent runs of the same check must not clobber each other
+    work = os.path.join(core.VERIF, "work", f"{prop}.{os.getpid()}")
     shutil.rmtree(work, ignore_errors=True)
     os.makedirs(work, exist_ok=True)
+    import atexit
+    atexit.register(lambda: shutil.rmtree(work, ignore_errors=True))
     known = core.load_known()
     violations = []      # dicts: descriptor, replay payload, no_input (bool)
     known_hits = {}
